@@ -10,7 +10,7 @@ From Coq Require Import String ZArith List Bool.
 Import ListNotations.
 Open Scope string_scope.
 
-Inductive binop := OAdd | OSub | OLt.
+Inductive binop := OAdd | OSub | OLt | OMerge.   (* a + b, a - b, a < b, a & b *)
 
 Inductive tm :=
 | Var (x : string)
@@ -24,12 +24,16 @@ Inductive tm :=
 | If (c t e : tm)
 | Rec (fs : list (string * tm))        (* record literal; fields are mutually recursive *)
 | Proj (e : tm) (f : string)           (* e.f *)
+| Seq (a b : tm)                       (* std.seq a b : force a, then b *)
 | Fail.                                (* std.fail_with "..."   (class Blame) *)
 
 (* Error classes (DESIGN §1.2); [EPanic] is the explicit out-of-contract outcome of the model
    (dangling thunk index, unsaturated if-then-else continuation): proved unreachable. *)
 Inductive err :=
-| ETypeErr | ENotAFunc | EFieldMissing | EUnbound | EBlame | EInfRec | EQueryNonRecord | EPanic.
+| ETypeErr | ENotAFunc | EFieldMissing | EUnbound | EBlame | EInfRec | EQueryNonRecord | EPanic
+| ENonMergeable       (* MergeIncompatibleArgs *)
+| EOutOfFragment.     (* model limitation, explicit: merge of a record having a field that depends on
+                         a sibling field (a revertible thunk: recursive overriding is not modelled) *)
 
 Inductive res (A : Type) :=
 | Val (a : A)
@@ -47,6 +51,49 @@ Fixpoint assoc {A} (l : list (string * A)) (x : string) : option A :=
   match l with
   | [] => None
   | (y, a) :: l' => if String.eqb x y then Some a else assoc l' x
+  end.
+
+Definition has_key {A} (l : list (string * A)) (x : string) : bool :=
+  match assoc l x with Some _ => true | None => false end.
+
+(* Does [e] mention, free, one of [names]?  ([bound]: variables bound on the way.)  This is the
+   dependency analysis of transform/free_vars.rs restricted to the question asked by
+   closurize_rec_record: is the field's thunk revertible (non-empty deps) or standard. *)
+Fixpoint fvb (bound names : list string) (e : tm) : bool :=
+  let mem x l := existsb (String.eqb x) l in
+  match e with
+  | Var x => mem x names && negb (mem x bound)
+  | Lam x b => fvb (x :: bound) names b
+  | App f a => fvb bound names f || fvb bound names a
+  | Let x d b => fvb bound names d || fvb (x :: bound) names b
+  | LetRec x d b => fvb (x :: bound) names d || fvb (x :: bound) names b
+  | Num _ | Bool _ | Fail => false
+  | Op2 _ a b => fvb bound names a || fvb bound names b
+  | If c t f => fvb bound names c || fvb bound names t || fvb bound names f
+  | Rec fs =>
+      let bound' := (map fst fs ++ bound)%list in
+      (fix go (l : list (string * tm)) : bool :=
+         match l with
+         | [] => false
+         | (_, d) :: l' => fvb bound' names d || go l'
+         end) fs
+  | Proj a _ => fvb bound names a
+  | Seq a b => fvb bound names a || fvb bound names b
+  end.
+
+(* the three parts of a record merge (merge.rs [split]): fields only on the left, fields on both
+   sides, fields only on the right *)
+Definition left_part {A B} (l1 : list (string * A)) (l2 : list (string * B)) : list (string * A) :=
+  filter (fun p => negb (has_key l2 (fst p))) l1.
+
+Fixpoint center_part {A B} (l1 : list (string * A)) (l2 : list (string * B)) : list (string * (A * B)) :=
+  match l1 with
+  | [] => []
+  | (f, a) :: l1' =>
+      match assoc l2 f with
+      | Some b => (f, (a, b)) :: center_part l1' l2
+      | None => center_part l1' l2
+      end
   end.
 
 (* What is observable of a weak head normal form (what the REPL prints for `eval`). *)
